@@ -241,6 +241,7 @@ def run_shard(sh, spec):
                 except (ArithmeticError, ValueError, TypeError, AttributeError):
                     pass
         code = "\n".join(s["text"] for s in stmts)
+        sh.count("statements_using_ans", sum(1 for s in stmts if s.get("uses_ans")))
         inexact = any(s.get("inexact") for s in stmts)
         sid = w.fork("p")
         try:
